@@ -22,7 +22,37 @@ def prod : List Nat → Nat
   | [] => 1
   | d :: ds => d * prod ds
 
-/-! ### constructors -/
+/-- `dims.iter().product::<usize>()` as the checked build executes it: a left fold with every
+    multiplication checked against 64 bits (`panic:overflow`). -/
+def prodUFrom : Nat → List Nat → Except Panic Nat
+  | acc, [] => .ok acc
+  | acc, d :: ds => if acc * d < 2 ^ 64 then prodUFrom (acc * d) ds else .error .overflow
+
+def prodU (dims : List Nat) : Except Panic Nat := prodUFrom 1 dims
+
+/-! ### constructors
+
+The plain versions (`fromVec`, …) compute the product over ℕ; the `…U` versions are what the
+checked build executes (product through `prodU`).  `Lemmas/Tensor.lean` proves that they agree
+whenever `Π dims < 2^64`, and that the `…U` versions still reject every bad shape otherwise. -/
+
+def fromVecU {α} (dims : List Nat) (data : List α) : Except Panic (Tensor α) :=
+  if dims.contains 0 then .error .assert
+  else match prodU dims with
+    | .error e => .error e
+    | .ok p => if p ≠ data.length then .error .assert else .ok ⟨dims, data⟩
+
+def fromSliceU {α} (dims : List Nat) (data : List α) : Except Panic (Tensor α) :=
+  if dims.contains 0 then .error .assert
+  else match prodU dims with
+    | .error e => .error e
+    | .ok p => if p ≠ data.length then .error .assert else .ok ⟨dims, data⟩
+
+def newU {α} (dims : List Nat) (value : α) : Except Panic (Tensor α) :=
+  if dims.contains 0 then .error .assert
+  else match prodU dims with
+    | .error e => .error e
+    | .ok p => .ok ⟨dims, List.replicate p value⟩
 
 /-- `from_vec`: `assert!(!dims.contains(&0)); assert_eq!(product, data.len())`. -/
 def fromVec {α} (dims : List Nat) (data : List α) : Except Panic (Tensor α) :=
@@ -55,6 +85,14 @@ def read {σ α} (dims : List Nat) (rd : σ → α × σ) (s : σ) : Except Pani
   else
     let (d, s') := readVec rd (prod dims) s
     .ok (⟨dims, d⟩, s')
+
+def readU {σ α} (dims : List Nat) (rd : σ → α × σ) (s : σ) : Except Panic (Tensor α × σ) :=
+  if dims.contains 0 then .error .assert
+  else match prodU dims with
+    | .error e => .error e
+    | .ok p =>
+      let (d, s') := readVec rd p s
+      .ok (⟨dims, d⟩, s')
 
 /-! ### indexing -/
 
@@ -181,6 +219,34 @@ def writeText {α} (render : α → List Char) (t : Tensor α) : Except Panic (L
   match writePieces t with
   | .error e => .error e
   | .ok ps => .ok (renderPieces render ps)
+
+/-! ### `Debug`: the same odometer, nested brackets
+
+`impl Debug` repeats the loop of `write` with other separators: `", "` inside the last
+dimension, otherwise `]`×k `", "` `[`×k with `k = D − pos − 1`; the whole output is wrapped in
+`[`×D … `]`×D.  The model reuses the odometer (`writePieces`) and renders a separator piece
+`sep k` that way (`sep 0` ↦ `", "`). -/
+
+def renderPieceDbg {α} (render : α → List Char) : Piece α → List Char
+  | .elem a => render a
+  | .sep k => List.replicate k ']' ++ [',', ' '] ++ List.replicate k '['
+
+def debugText {α} (render : α → List Char) (t : Tensor α) : Except Panic (List Char) :=
+  match writePieces t with
+  | .error e => .error e
+  | .ok ps =>
+    let D := t.dims.length
+    .ok (List.replicate D '[' ++ (ps.map (renderPieceDbg render)).flatten ++ List.replicate D ']')
+
+/-- What `{:?}` must print: nested lists, row-major (defined by recursion on the shape,
+    independent of the odometer). -/
+def nested {α} (render : α → List Char) : List Nat → List α → List Char
+  | [], data => match data with
+    | a :: _ => render a
+    | [] => []
+  | d :: ds, data =>
+    let blocks := (List.range d).map (fun i => nested render ds (data.drop (i * prod ds)))
+    ['['] ++ (blocks.intersperse [',', ' ']).flatten ++ [']']
 
 /-! ### Executable specification -/
 
